@@ -293,6 +293,9 @@ def do_part(test, ph, part):
     if part.get("chdir"):
         import tempfile
         os.chdir(tempfile.gettempdir())
+    if part.get("argv"):
+        # a test of command-line code: empties sys.argv in place and does not put it back
+        del sys.argv[1:]
     if part.get("atexit_fd2"):
         # something that reports on the real stderr when the process shuts down (a fixture server being stopped):
         # in a layer subprocess that is after the report has been written
